@@ -227,11 +227,61 @@ def main(argv):
             if k == 0 and not last.startswith("D plain(800001,resp(99,0,0;"):
                 c.violation("a well-formed encrypted reply is not read after %d earlier request(s) on the key (%s build): %s" % (nh, prof, last[:80]),
                             {"cmd": ln, "profile": prof, "observed": o}, key="privacy-extent-wellformed")
+    # ---- the same through the sockets: whatever follows the top-level message in a datagram, the reply is rejected, not read
+    # (the decoders above are reached through SnmpSocket::recv_socket, which must hand them the whole datagram)
+    vb = ber.varbind(ber.enc_oid([1, 3, 6, 1, 2, 1, 1, 5, 0]), ber.enc_value("os", b"Gufo"))
+    whole = ber.msg_community(1, b"public", ber.pdu(0xA2, 1, 0, 0, [vb]))
+    sufs = ["00", "0000", "00" * 17, "ff", "3000", "0500", gen.rbytes(rng, rng.randint(1, 30), False).hex(), whole.hex()]
+    cfgs = [("v1", None), ("v2c", None), ("v3", {"user": "u0", "auth": None, "priv": None}),
+            ("v3", {"user": "ue", "auth": ["sha1", 2, "44" * 20], "priv": ["aes", 2, "55" * 20]}),
+            ("v3", {"user": "ud", "auth": ["md5", 2, "46" * 16], "priv": ["des", 2, "57" * 16]})]
+    scs = []
+    for ver, v3 in cfgs:
+        for mode in ("sync", "async"):
+            sc = {"version": ver, "mode": mode, "timeout": 0.3, "steps": []}
+            if v3:
+                sc["v3"] = dict(v3, engine_id="80001f8880a1b2c3d4", agent_engine_id="80001f8880a1b2c3d4", boots=2, time=500)
+            for sx in sufs if thorough else rng.sample(sufs, 5):
+                op = rng.choice(["get", "get_many", "getnext", "getbulk"]) if ver != "v1" else rng.choice(["get", "get_many", "getnext"])
+                args = {"get": ["1.3.6.1.2.1.1.5.0"], "get_many": [["1.3.6.1.2.1.1.5.0"]], "getnext": ["1.3.6.1.2.1.1"], "getbulk": ["1.3.6.1.2.1.1"]}[op]
+                sc["steps"].append({"op": op, "args": args, "replies": [[{"vbs": vb.hex(), "post": {"append": sx}}]], "cap": 3, "_suffix": sx})
+            # and the plain reply, which must be read
+            sc["steps"].append({"op": "get", "args": ["1.3.6.1.2.1.1.5.0"], "replies": [[{"vbs": vb.hex()}]], "_suffix": ""})
+            scs.append(sc)
+    ress, logs = vf.run_api_worker("C16", {"scenarios": [dict(sc, steps=[{k: v for k, v in st.items() if not k.startswith("_")} for st in sc["steps"]]) for sc in scs],
+                                           "model_exe": v3exe})
+    n_sock = 0
+    if ress is None:
+        c.errors.append("API worker failed: " + logs[-1500:])
+    else:
+        for sc, rec in zip(scs, ress["records"]):
+            if "driver_error" in rec:
+                c.errors.append("API driver error: " + rec["driver_error"])
+                continue
+            for st, out in zip(sc["steps"], rec["steps"]):
+                n_sock += 1
+                c.count(("socket-trailing", sc["version"], sc["mode"], bool(sc.get("v3", {}).get("priv")), st["op"], st["_suffix"][:40]), bool(st["_suffix"]))
+                got = out.get("exc") or ("items %s" % out.get("items") if out["kind"] == "ITER" else "value %s" % out.get("value"))
+                if st["_suffix"]:
+                    read = out["kind"] == "RET" or (out["kind"] == "ITER" and out.get("items"))
+                    if read or (out.get("exc") or out.get("ending")) not in ("SnmpDecodeError",):
+                        c.violation("%s/%s %s: a reply followed by %d more octet(s) in its datagram is %s (%s), rejection with SnmpDecodeError expected"
+                                    % (sc["version"], sc["mode"], st["op"], len(st["_suffix"]) // 2, "read" if read else "not rejected as a decode error", got),
+                                    {"scenario": dict(sc, steps=[{k: v for k, v in st.items() if not k.startswith("_")}]), "observed": out.get("exc") or out.get("value") or out.get("items")},
+                                    key="socket-trailing:%s" % ("read" if read else "other-outcome"))
+                elif out["kind"] != "RET" or "4775666f" not in (out.get("value") or ""):
+                    c.violation("%s/%s get: the plain reply is not read (%s)" % (sc["version"], sc["mode"], got), {"scenario": dict(sc, steps=[])}, key="socket-plain")
+    c.coverage["socket_trailing_calls"] = n_sock
     return c.finish(
         rule="%d (x, s) pairs: x a legal encoding (all value kinds incl. REAL, non-minimal lengths/integers, SEQUENCE/context elements, "
              "v1/v2c/v3/USM messages), s 1..40 appended octets; plus %d messages whose inner value length is tampered to run past the "
              "varbind; non-trivial = x decodes alone and is longer than 8 octets; distinct by x" % (len(base), len(lines)),
         extra={"disagreements": dis, "pairs_decoding_alone": n_ok})
+
+
+def api_main(g, job):
+    import scen
+    return scen.api_main_generic(g, job)
 
 
 def canon(line, emap):
